@@ -45,7 +45,7 @@ def _classify(item):
         except vlib._TO: return "timeout"
         except RecursionError as e: return vlib.host_site(e)
         except RuntimeError as e: return "limit" if "Maximum Stack Size" in str(e) else vlib.host_site(e)
-        except MemoryError: return "timeout"
+        except MemoryError as e: return vlib.host_site(e) if tag.startswith("direct:") else "timeout"
         except BaseException as e: return vlib.host_site(e)
     finally:
         signal.setitimer(signal.ITIMER_REAL, 0); sys.stdin, sys.stdout = old
@@ -94,6 +94,13 @@ def c04_sweep(r, seed, tier, model_ok):
     for st in ["", "1", "-1", "1.5", "1e5", "z", "१२", " 1 ", "1_0", "0x1", "1.5.2", ".", "-", "1+2i", "i", "nan", "inf", "9" * 400]:
         for base in ["", "ㄱ", "ㄴ", "ㄷ", E(10), E(36), E(37), "ㄴㄱ"]:
             for f in ["ㅈㅅ", "ㅅㅅ", "ㅂㅅ"]: items.append((f"{f}('{st[:8]}',{base})", f"{_s(st) if st else '(ㅁㅈㅎㄱ)'} {base} {f} ㅎ{E(2 if base else 1)}"))
+    # shift counts and exponents that the host refuses AT ONCE (no long computation): 2^62 .. 2^100 - an immediate OverflowError / MemoryError of the
+    # host is a host escape like any other (the general sweep leaves these operand pairs out because slightly smaller ones compute for minutes)
+    for cnt_ in (2**62, 2**63, 2**64, 2**100, 10**30):
+        for opnd in (1, -1, 0, 7, 2**70):
+            items.append((f"direct:bit.ㅈ({opnd},{cnt_})", f"{E(opnd)} {E(cnt_)} (ㅂ ㅂㄷ ㅈ ㅂㅎㄹ) ㅎㄷ"))
+            items.append((f"direct:bit.ㅈ({opnd},{-cnt_})", f"{E(opnd)} {E(-cnt_)} (ㅂ ㅂㄷ ㅈ ㅂㅎㄹ) ㅎㄷ"))
+            items.append((f"direct:bit.ㅈ-under-try({opnd},{cnt_})", f"({E(opnd)} {E(cnt_)} (ㅂ ㅂㄷ ㅈ ㅂㅎㄹ) ㅎㄷ) ((ㅈㅈㄱ) ㅎ) ㅅㄷㅎㄷ"))
     d = os.path.join(vlib.ROOT, ".scratch"); os.makedirs(d, exist_ok=True); cwd = os.getcwd(); os.chdir(d)        # ㄱㄴ / ㅂ with path-like strings run here
     try: out = pmap(_classify, items, chunksize=400)
     finally: os.chdir(cwd)
